@@ -141,6 +141,18 @@ func VJSONRound(g VJSON) {
 	}
 }
 
+// vKeysInequivalent: keys that differ are also different under the configured comparator (always true for == keys).
+func vKeysInequivalent(keys []int) bool {
+	for i := range keys {
+		for j := i + 1; j < len(keys); j++ {
+			if keys[i] != keys[j] && vl.Equiv(keys[i], keys[j]) {
+				return false
+			}
+		}
+	}
+	return true
+}
+
 // VJSONLoad: FromJSON of an arbitrary document (every class of the codec's contract) into an arbitrary prior
 // state: on success the content is exactly what the document denotes and the container stays sound; on error
 // the container is untouched (C12). Whatever happens, one further operation works (C17).
@@ -196,7 +208,7 @@ func VJSONLoad(g VJSON) {
 			// the surviving pairs of a one-to-one load depend on Go's map iteration order when values collide;
 			// with pairwise distinct values the result is exact
 			dk, dx := vl.LastPerKey(keys, vals)
-			distinct := true
+			distinct := vKeysInequivalent(keys) // (and distinct keys that the key comparator treats as one key)
 			for i := range dx {
 				for j := i + 1; j < len(dx); j++ {
 					if dx[i] == dx[j] {
@@ -210,6 +222,11 @@ func VJSONLoad(g VJSON) {
 			} else {
 				v.Assert(len(ax) <= len(dk), "C12,C06,C10:prior-content-survived")
 			}
+		} else if g.Object && !vKeysInequivalent(keys) {
+			// distinct document keys that the container's comparator treats as one key: which of their values
+			// survives depends on Go's map iteration order; only "nothing else survives" is exact
+			dk, _ := vl.LastPerKey(keys, vals)
+			v.Assert(len(ax) < len(dk), "C12,C06:prior-content-survived")
 		} else {
 			ek, ex := g.Ref(keys, vals)
 			vSameContent(g, ak, ax, ek, ex, "C12,C06:loaded-content")
